@@ -40,54 +40,94 @@ import (
 )
 
 type SOp struct {
-	Op   string `json:"op"` // agent | listener | exc2 | leave
-	Conn int    `json:"conn"`
+	Op   string `json:"op"`   // connect | agent | listener | exc2 | leave
+	Conn int    `json:"conn"` // connection slot
 	Name string `json:"name,omitempty"`
 }
 
+// CaseC is a history over connection slots.  The first NConn slots are connected up
+// front (in slot order); any slot that is not connected can be (re)connected by a
+// "connect" operation at any later point, i.e. also after earlier connections have
+// left; every connect is a new connection with an identity of its own.
 type CaseC struct {
 	NConn  int    `json:"nconn"`
+	Slots  int    `json:"slots,omitempty"` // number of slots (>= NConn); 0 means NConn
 	Ops    []SOp  `json:"ops"`
-	Final  []int  `json:"final"`  // order in which the connections still present leave at the end
-	Abrupt []bool `json:"abrupt"` // per connection: TCP close without a close frame
+	Final  []int  `json:"final"`  // order in which the slots still connected leave at the end
+	Abrupt []bool `json:"abrupt"` // per slot: TCP close without a close frame
 }
 
 var (
 	agentPool    = []string{"A1", "A2", "A3"}
 	listenerPool = []string{"L1", "L2"}
-	exc2Pool     = []string{"X1", "X2", "X3"}
+	exc2Pool     = []string{"X1", "X2", "X3", "X4"}
 	magicOf      = map[string]uint32{"A1": 0x41410001, "A2": 0x41410002, "A3": 0x41410003}
 )
 
 const crashSig = "crash|Havoc/pkg/service.(*Service).ClientClose"
 
+const maxSlots = 5
+
 func genC(t *rapid.T) CaseC {
-	c := CaseC{NConn: rapid.IntRange(2, 3).Draw(t, "nconn")}
-	left := map[int]bool{}
-	n := rapid.IntRange(1, 9).Draw(t, "nops")
+	c := CaseC{Slots: rapid.IntRange(2, maxSlots).Draw(t, "slots")}
+	c.NConn = rapid.IntRange(0, min(2, c.Slots)).Draw(t, "nconn")
+	on := map[int]bool{}
+	for i := 0; i < c.NConn; i++ {
+		on[i] = true
+	}
+	n := rapid.IntRange(2, 16).Draw(t, "nops")
 	for i := 0; i < n; i++ {
-		op := SOp{Conn: rapid.IntRange(0, c.NConn-1).Draw(t, "conn")}
-		if left[op.Conn] {
-			continue
+		var offSlots, onSlots []int
+		for sl := 0; sl < c.Slots; sl++ {
+			if on[sl] {
+				onSlots = append(onSlots, sl)
+			} else {
+				offSlots = append(offSlots, sl)
+			}
 		}
-		switch rapid.SampledFrom([]string{"agent", "agent", "agent", "listener", "listener", "exc2", "exc2", "leave"}).Draw(t, "op") {
+		kinds := []string{}
+		if len(offSlots) > 0 {
+			kinds = append(kinds, "connect", "connect")
+			if len(onSlots) == 0 {
+				kinds = []string{"connect"}
+			}
+		}
+		if len(onSlots) > 0 {
+			kinds = append(kinds, "agent", "agent", "listener", "exc2", "exc2", "exc2", "leave", "leave")
+		}
+		var op SOp
+		switch rapid.SampledFrom(kinds).Draw(t, "op") {
+		case "connect":
+			op = SOp{Op: "connect", Conn: rapid.SampledFrom(offSlots).Draw(t, "slot")}
+			on[op.Conn] = true
 		case "agent":
-			op.Op, op.Name = "agent", rapid.SampledFrom(agentPool).Draw(t, "an")
+			op = SOp{Op: "agent", Conn: rapid.SampledFrom(onSlots).Draw(t, "slot"), Name: rapid.SampledFrom(agentPool).Draw(t, "an")}
 		case "listener":
-			op.Op, op.Name = "listener", rapid.SampledFrom(listenerPool).Draw(t, "ln")
+			op = SOp{Op: "listener", Conn: rapid.SampledFrom(onSlots).Draw(t, "slot"), Name: rapid.SampledFrom(listenerPool).Draw(t, "ln")}
 		case "exc2":
-			op.Op, op.Name = "exc2", rapid.SampledFrom(exc2Pool).Draw(t, "xn")
+			op = SOp{Op: "exc2", Conn: rapid.SampledFrom(onSlots).Draw(t, "slot"), Name: rapid.SampledFrom(exc2Pool).Draw(t, "xn")}
 		case "leave":
-			op.Op = "leave"
-			left[op.Conn] = true
+			op = SOp{Op: "leave", Conn: rapid.SampledFrom(onSlots).Draw(t, "slot")}
+			delete(on, op.Conn)
 		}
 		c.Ops = append(c.Ops, op)
 	}
-	c.Final = rapid.Permutation([]int{0, 1, 2}[:c.NConn]).Draw(t, "final")
-	for i := 0; i < c.NConn; i++ {
+	c.Final = rapid.Permutation([]int{0, 1, 2, 3, 4}[:c.Slots]).Draw(t, "final")
+	for i := 0; i < c.Slots; i++ {
 		c.Abrupt = append(c.Abrupt, rapid.Bool().Draw(t, "abrupt"))
 	}
 	return c
+}
+
+func (c CaseC) slots() int {
+	n := c.Slots
+	if n < c.NConn {
+		n = c.NConn
+	}
+	if n > 8 {
+		n = 8
+	}
+	return n
 }
 
 type item struct {
@@ -232,22 +272,40 @@ func checkC(c CaseC) *core.Violation {
 	if err := ts.ListenerStart(handlers.LISTENER_EXTERNAL, handlers.ExternalConfig{Name: svcx.OpExt, Endpoint: "opext"}); err != nil {
 		return skip("op-ext", err)
 	}
-	if c.NConn < 1 || c.NConn > 8 {
-		return nil
-	}
-	conns := make([]*svcx.Client, c.NConn)
+	nslots := c.slots()
 	m := &modelC{}
-	for i := 0; i < c.NConn; i++ {
-		if conns[i], err = fx.Connect(i); err != nil {
+	clients := map[int]*svcx.Client{} // connection id -> client
+	cur := map[int]int{}              // slot -> id of the connection it currently holds
+	nextID := 0
+	connect := func(slot int) *core.Violation {
+		id := nextID
+		nextID++
+		cl, err := fx.Connect(id)
+		if err != nil {
 			return skip("service-connect", err)
 		}
 		// routine() - and with it the barrier's reply - starts only after the connection was
-		// appended to s.clients: connections are therefore accepted in this order.
-		if err := conns[i].Barrier(); err != nil {
+		// appended to s.clients: connections are therefore accepted in the order of the connects.
+		if err := cl.Barrier(); err != nil {
 			return inconclusive("barrier: %v", err)
 		}
-		m.alive = append(m.alive, i)
+		clients[id], cur[slot] = cl, id
+		m.alive = append(m.alive, id)
+		return nil
 	}
+	aborted := false
+	for i := 0; i < c.NConn && i < nslots; i++ {
+		if v := connect(i); v != nil {
+			return v
+		}
+		if _, ok := cur[i]; !ok {
+			aborted = true
+		}
+	}
+	if aborted {
+		return nil
+	}
+	conns := clients
 	isAlive := func(id int) bool {
 		for _, a := range m.alive {
 			if a == id {
@@ -256,7 +314,7 @@ func checkC(c CaseC) *core.Violation {
 		}
 		return false
 	}
-	abrupt := func(id int) bool { return id < len(c.Abrupt) && c.Abrupt[id] }
+	abruptSlot := func(slot int) bool { return slot >= 0 && slot < len(c.Abrupt) && c.Abrupt[slot] }
 	marker := uint32(0)
 
 	compare := func(kind, when string) *core.Violation {
@@ -278,7 +336,12 @@ func checkC(c CaseC) *core.Violation {
 		return nil
 	}
 
-	leave := func(id int, step string) *core.Violation {
+	leave := func(slot int, step string) *core.Violation {
+		id, ok := cur[slot]
+		if !ok {
+			return nil
+		}
+		delete(cur, slot)
 		pos := -1
 		for i, a := range m.alive {
 			if a == id {
@@ -294,7 +357,7 @@ func checkC(c CaseC) *core.Violation {
 			return core.V(crashSig, "%s: connection %d is not the most recently accepted of %v; its disconnect is not executed while the ClientClose crash is an open finding", step, id, m.alive)
 		}
 		n := svcx.CountGoroutines("service.(*Service).handleConnection")
-		conns[id].Leave(abrupt(id))
+		conns[id].Leave(abruptSlot(slot))
 		if !svcx.WaitGoroutines("service.(*Service).handleConnection", n-1) {
 			return inconclusive("%s: the teamserver did not finish handling the disconnect of connection %d within %v", step, id, svcx.Bound)
 		}
@@ -397,6 +460,26 @@ func checkC(c CaseC) *core.Violation {
 			}
 		}
 		_ = relayOwner
+		if relayMagic == 0 {
+			// no agent type survives: a surviving ExC2 endpoint must still answer (refusing an
+			// unknown magic value) instead of being gone or wedged
+			for _, x := range m.exc2 {
+				if x.owner < 0 {
+					continue
+				}
+				marker++
+				body, _ := agentRequest(0x7a7a7a7a, marker)
+				code, _, found, done := callEndpoint(ts, endpointOf(x.name), body)
+				switch {
+				case !found:
+					return core.V("svc|disconnect|surviving-exc2-endpoint-gone", "%s: the endpoint %q of ExC2 listener %q (connection %d, still connected) is not routed any more", step, endpointOf(x.name), x.name, x.owner)
+				case !done:
+					return core.V("svc|disconnect|surviving-relay-hangs", "%s: a request into the surviving ExC2 endpoint %q was never answered", step, endpointOf(x.name))
+				case code != 404:
+					return core.V("svc|disconnect|surviving-exc2-endpoint-broken", "%s: a request with an unregistered magic value into the surviving ExC2 endpoint %q got %d, want 404", step, endpointOf(x.name), code)
+				}
+			}
+		}
 		for _, l := range m.listeners {
 			if l.owner < 0 {
 				continue
@@ -424,11 +507,31 @@ func checkC(c CaseC) *core.Violation {
 	}
 
 	for i, op := range c.Ops {
-		if op.Conn < 0 || op.Conn >= c.NConn || !isAlive(op.Conn) {
+		if op.Conn < 0 || op.Conn >= nslots {
 			continue
 		}
-		cl := conns[op.Conn]
-		step := fmt.Sprintf("step %d (%s %s by connection %d)", i, op.Op, op.Name, op.Conn)
+		id, connected := cur[op.Conn]
+		if op.Op == "connect" {
+			if connected {
+				continue
+			}
+			before := len(cur)
+			if v := connect(op.Conn); v != nil {
+				return v
+			}
+			if len(cur) == before {
+				return nil // harness could not connect: case abandoned (counted)
+			}
+			if v := compare("connect", fmt.Sprintf("step %d (slot %d connects)", i, op.Conn)); v != nil {
+				return v
+			}
+			continue
+		}
+		if !connected || !isAlive(id) {
+			continue
+		}
+		cl := conns[id]
+		step := fmt.Sprintf("step %d (%s %s by connection %d in slot %d)", i, op.Op, op.Name, id, op.Conn)
 		switch op.Op {
 		case "agent":
 			if _, ok := magicOf[op.Name]; !ok {
@@ -439,7 +542,7 @@ func checkC(c CaseC) *core.Violation {
 				return inconclusive("barrier: %v", err)
 			}
 			if !has(m.agents, op.Name) {
-				m.agents = append(m.agents, item{op.Name, op.Conn})
+				m.agents = append(m.agents, item{op.Name, id})
 			}
 		case "listener":
 			cl.RegisterListener(op.Name, "SvcAgent")
@@ -447,7 +550,7 @@ func checkC(c CaseC) *core.Violation {
 				return inconclusive("barrier: %v", err)
 			}
 			if !has(m.listeners, op.Name) {
-				m.listeners = append(m.listeners, item{op.Name, op.Conn})
+				m.listeners = append(m.listeners, item{op.Name, id})
 			}
 		case "exc2":
 			ok, _, err := cl.AddExC2(op.Name, endpointOf(op.Name))
@@ -459,7 +562,7 @@ func checkC(c CaseC) *core.Violation {
 				return core.V("svc|register|exc2-verdict", "%s: the teamserver answered Success=%v, the name is taken=%v", step, ok, !want)
 			}
 			if want {
-				m.exc2 = append(m.exc2, item{op.Name, op.Conn})
+				m.exc2 = append(m.exc2, item{op.Name, id})
 			}
 		case "leave":
 			if v := leave(op.Conn, step); v != nil {
@@ -476,11 +579,11 @@ func checkC(c CaseC) *core.Violation {
 			return v
 		}
 	}
-	for k, id := range c.Final {
-		if id < 0 || id >= c.NConn {
+	for k, slot := range c.Final {
+		if slot < 0 || slot >= nslots {
 			continue
 		}
-		if v := leave(id, fmt.Sprintf("final disconnect %d (connection %d)", k, id)); v != nil {
+		if v := leave(slot, fmt.Sprintf("final disconnect %d (slot %d)", k, slot)); v != nil {
 			return v
 		}
 	}
@@ -489,17 +592,31 @@ func checkC(c CaseC) *core.Violation {
 
 func classifyC(c CaseC) core.Class {
 	var cl core.Class
-	alive := []int{}
-	for i := 0; i < c.NConn; i++ {
-		alive = append(alive, i)
+	nslots := c.slots()
+	alive := []int{}     // connection ids in acceptance order
+	cur := map[int]int{} // slot -> connection id
+	next := 0
+	connect := func(slot int) {
+		cur[slot] = next
+		alive = append(alive, next)
+		next++
 	}
-	owners := map[string]int{}
+	for i := 0; i < c.NConn && i < nslots; i++ {
+		connect(i)
+	}
+	owners := map[string]int{} // kind/name -> connection id
 	perConn := map[int]int{}
-	dups, nonLast, leaves := 0, 0, 0
-	leave := func(id int) {
+	exc2Of := map[int]int{}
+	dups, nonLast, leaves, rejoin, lateLeave := 0, 0, 0, 0, 0
+	joinedAfterLeave := map[int]bool{}
+	leave := func(slot int) {
+		id, ok := cur[slot]
+		if !ok {
+			return
+		}
+		delete(cur, slot)
 		for p, a := range alive {
 			if a == id {
-				leaves++
 				if p < len(alive)-1 {
 					nonLast++
 					cl.Labels = append(cl.Labels, "leave:non-last")
@@ -507,42 +624,75 @@ func classifyC(c CaseC) core.Class {
 					cl.Labels = append(cl.Labels, "leave:last")
 				}
 				cl.Labels = append(cl.Labels, fmt.Sprintf("leave:with-%d-items", min(perConn[id], 3)))
+				// a connection that joined after somebody had left goes away while an older
+				// connection still holds an ExC2 listener
+				olderExc2 := false
+				for _, o := range alive[:p] {
+					if exc2Of[o] > 0 {
+						olderExc2 = true
+					}
+				}
+				if joinedAfterLeave[id] && olderExc2 {
+					lateLeave++
+					cl.Labels = append(cl.Labels, "leave:late-joiner-while-older-holds-exc2")
+				}
+				if joinedAfterLeave[id] && exc2Of[id] > 0 {
+					cl.Labels = append(cl.Labels, "leave:late-joiner-with-exc2")
+				}
+				leaves++
 				alive = append(alive[:p:p], alive[p+1:]...)
+				for k, o := range owners {
+					if o == id {
+						delete(owners, k)
+					}
+				}
 				return
 			}
 		}
 	}
-	isAlive := func(id int) bool {
-		for _, a := range alive {
-			if a == id {
-				return true
-			}
-		}
-		return false
-	}
 	kinds := map[string]bool{}
 	for _, op := range c.Ops {
-		if !isAlive(op.Conn) {
+		if op.Conn < 0 || op.Conn >= nslots {
 			continue
 		}
-		if op.Op == "leave" {
+		id, connected := cur[op.Conn]
+		switch {
+		case op.Op == "connect":
+			if !connected {
+				if leaves > 0 {
+					rejoin++
+					joinedAfterLeave[next] = true
+					cl.Labels = append(cl.Labels, "connect:after-a-leave")
+				} else {
+					cl.Labels = append(cl.Labels, "connect:before-any-leave")
+				}
+				connect(op.Conn)
+			}
+		case !connected:
+		case op.Op == "leave":
 			cl.Labels = append(cl.Labels, "leave:mid-history")
 			leave(op.Conn)
-			continue
-		}
-		cl.Labels = append(cl.Labels, "register:"+op.Op)
-		kinds[op.Op] = true
-		key := op.Op + "/" + op.Name
-		if _, ok := owners[key]; ok {
-			dups++
-			cl.Labels = append(cl.Labels, "register:name-taken")
-		} else {
-			owners[key] = op.Conn
-			perConn[op.Conn]++
+		default:
+			cl.Labels = append(cl.Labels, "register:"+op.Op)
+			kinds[op.Op] = true
+			key := op.Op + "/" + op.Name
+			if _, ok := owners[key]; ok {
+				dups++
+				cl.Labels = append(cl.Labels, "register:name-taken")
+			} else {
+				owners[key] = id
+				perConn[id]++
+				if op.Op == "exc2" {
+					exc2Of[id]++
+					if joinedAfterLeave[id] {
+						cl.Labels = append(cl.Labels, "register:exc2-by-late-joiner")
+					}
+				}
+			}
 		}
 	}
-	for _, id := range c.Final {
-		leave(id)
+	for _, slot := range c.Final {
+		leave(slot)
 	}
 	multi := 0
 	for _, n := range perConn {
@@ -550,20 +700,20 @@ func classifyC(c CaseC) core.Class {
 			multi++
 		}
 	}
-	cl.NonTrivial = c.NConn >= 2 && nonLast > 0
+	cl.NonTrivial = next >= 2 && nonLast > 0
 	var ks []string
 	for k := range kinds {
 		ks = append(ks, k)
 	}
 	sort.Strings(ks)
-	cl.Fingerprint = fmt.Sprintf("n=%d|nonlast=%d|dups=%d|multi=%d|kinds=%s", c.NConn, min(nonLast, 2), min(dups, 2), min(multi, 2), strings.Join(ks, "+"))
+	cl.Fingerprint = fmt.Sprintf("conns=%d|nonlast=%d|rejoin=%d|lateleave=%d|dups=%d|multi=%d|kinds=%s", min(next, 5), min(nonLast, 2), min(rejoin, 2), min(lateLeave, 1), min(dups, 2), min(multi, 2), strings.Join(ks, "+"))
 	return cl
 }
 
 func TestC16c(t *testing.T) {
 	core.Run(t, core.Spec[CaseC]{
 		Property: "C16", Sub: "c",
-		Rule: "2-3 real websocket service connections (authenticated against the route registered by the real Service.Start) register agent types (pool of 3 names with distinct magic values), service-defined listener kinds (pool of 2) and External-C2 listeners/endpoints (pool of 3) in generated interleaved order - a taken name may be tried again by anybody - and leave (clean close frame or abrupt TCP close) in generated order, some in the middle; after each registration the four registries (Service.Agents, Service.Listeners, ExC2 entries of ts.Listeners, ts.Endpoints) equal the first-come-first-served model; after each disconnect exactly the leaver's items are gone, the operator's own External listener is untouched, and every surviving agent type is relayed (agent request with its magic value through the operator endpoint and every surviving ExC2 endpoint, answered by the owning connection) and every surviving listener kind still forwards a start request to its connection. Non-trivial: >=2 connections and a connection that is not the most recently accepted one leaves; distinct = (#connections, non-last leaves 0/1/2+, taken-name attempts 0/1/2+, connections with >=2 items 0/1/2+, kinds registered)",
+		Rule: "histories over 2-5 connection slots of connect / register / disconnect operations: real websocket service connections (authenticated against the route registered by the real Service.Start) are opened at any point - also after earlier ones have left, a slot can be connected again and again, each time as a new connection - register agent types (pool of 3 names with distinct magic values), service-defined listener kinds (pool of 2) and External-C2 listeners/endpoints (pool of 4) in generated interleaved order - a taken name may be tried again by anybody - and leave (clean close frame or abrupt TCP close) at any point, the rest in a generated final order; after each registration the four registries (Service.Agents, Service.Listeners, ExC2 entries of ts.Listeners, ts.Endpoints) equal the first-come-first-served model; after each disconnect exactly the leaver's items are gone, the operator's own External listener is untouched, and every surviving agent type is relayed (agent request with its magic value through the operator endpoint and every surviving ExC2 endpoint, answered by the owning connection) every surviving ExC2 endpoint still answers, and every surviving listener kind still forwards a start request to its connection. Non-trivial: >=2 connections and a connection that is not the most recently accepted one leaves; distinct = (#connections made, non-last leaves 0/1/2+, connects after a leave 0/1/2+, late joiner leaving while an older connection holds an ExC2 listener 0/1, taken-name attempts 0/1/2+, connections with >=2 items 0/1/2+, kinds registered)",
 		Gen:  genC, Check: checkC, Classify: classifyC,
 		Assumptions: []string{
 			"registrations and disconnects are applied one at a time (orders, not concurrent schedules): each step is followed by a request/reply barrier on the same connection or by the connection goroutine's exit",
